@@ -197,4 +197,189 @@ theorem close_replace_applies (S : Schema) (hdet : DetS S) (hleaf : LeafOk S) (h
   simp only [Schema.apply, Bool.false_eq_true, if_false, Schema.fromReplace, Schema.replace, hpm, hmerged, Except.map]
   exact ⟨_, rfl⟩
 
+/-! ### the trivial fit under the weaker guard `textAbsorbB` -/
+
+/-- reading a text node never loses a continuation (decidable: `textAbsorbB`) -/
+def TextAbsorb (S : Schema) : Prop :=
+  ∀ t q q', (S.dfa t).matchType q S.textTy = some q' → (S.dfa t).coversB q' q = true
+
+theorem textAbsorb_of_B (S : Schema) (h : textAbsorbB S = true) : TextAbsorb S := by
+  intro t q q' hm
+  have hq : q < (S.dfa t).size := edgesOf_lt (Dfa.mem_of_matchType hm)
+  have ht : t < S.nodes.size := ty_lt_of_edge S (Dfa.mem_of_matchType hm)
+  simp only [textAbsorbB, List.all_eq_true, List.mem_range] at h
+  have := h t ht q hq
+  simpa [hm] using this
+
+/-- where a text child stands, another one may be put in front of whatever else is accepted there -/
+theorem validContent_text_front' (S : Schema) (hst : TextAbsorb S) (p : TypeId) (pre post X : List Node)
+    (s s' : List Nat) (m : Marks)
+    (h1 : S.validContent p (pre ++ .text s m :: post) = true) (h2 : S.validContent p (pre ++ X) = true) :
+    S.validContent p (pre ++ .text s' m :: X) = true := by
+  have hm := allowsMarks_of_valid S _ _ h1 (.text s m) (by simp)
+  simp only [Schema.validContent, Bool.and_eq_true] at h1 h2 ⊢
+  constructor
+  · have a1 := h1.1
+    have a2 := h2.1
+    rw [types_append, accepts_append] at a1 a2 ⊢
+    cases hq : (S.dfa p).run 0 (S.types pre) with
+    | none => rw [hq] at a1; simp at a1
+    | some q =>
+      rw [hq] at a1 a2
+      simp only at a1 a2 ⊢
+      have e1 : S.types (Node.text s m :: post) = S.textTy :: S.types post := rfl
+      have e2 : S.types (Node.text s' m :: X) = S.textTy :: S.types X := rfl
+      rw [e1] at a1
+      rw [e2]
+      cases hq1 : (S.dfa p).matchType q S.textTy with
+      | none => simp [accFrom, Dfa.run, hq1] at a1
+      | some q1 =>
+        have hs := hst p q q1 hq1
+        have : accFrom (S.dfa p) q (S.textTy :: S.types X) = accFrom (S.dfa p) q1 (S.types X) := by
+          simp only [accFrom, Dfa.run, hq1]
+        rw [this]
+        unfold accFrom at a2 ⊢
+        cases hr : (S.dfa p).run q (S.types X) with
+        | none => rw [hr] at a2; simp at a2
+        | some qf =>
+          rw [hr] at a2
+          obtain ⟨qf', hr', hv'⟩ := covers_run _ q1 _ q qf hs hr a2
+          rw [hr']; exact hv'
+  · simp only [List.all_append, List.all_cons, Bool.and_eq_true] at h2 ⊢
+    exact ⟨h2.2.1, by simpa [Node.marks] using hm, h2.2.2⟩
+
+theorem flat_delete_valid' (S : Schema) (hst : TextAbsorb S) (tyP : TypeId) (L A Lr B Lr' : List Node) (k k' : Nat)
+    (hA : L = A ++ Lr) (hB : L = B ++ Lr') (hvL : S.validContent tyP L = true)
+    (hcr : S.canReplace tyP L A.length B.length [] 0 0 = some true) :
+    S.validContent tyP (A ++ headCut Lr k ++ tailCut Lr' k') = true := by
+  rw [validContent_tailCut]
+  have h2 := canReplace_delete_valid S tyP L A Lr B Lr' hA hB hvL hcr
+  unfold headCut
+  split
+  · simpa using h2
+  · split
+    · rename_i s m r
+      have := validContent_text_front' S hst tyP A r Lr' s (s.take k) m (by rw [← hA]; exact hvL) h2
+      simpa using this
+    · simpa using h2
+
+/-- **a deletion that fits trivially applies** — `trivial_delete_applies` (Proofs/DeleteFlat.lean) under the weaker guards
+    `TextAbsorb` and `TextStableP` -/
+theorem trivial_delete_applies' (S : Schema) (hst : TextAbsorb S) (htp : TextStableP S) (ty0 : TypeId) (a0 : Attrs)
+    (m0 : Marks) (K : List Node) (f t : Nat) (rf rt : RPos)
+    (hf : (Node.elem ty0 a0 m0 K).resolve f = some rf) (ht : (Node.elem ty0 a0 m0 K).resolve t = some rt)
+    (hv : S.checkNode (.elem ty0 a0 m0 K) = true) (hn : fnorm K = true) (hft : f ≤ t)
+    (hpf : rf.pairOk = true) (hpt : rt.pairOk = true)
+    (htr : fitsTriviallyR S rf rt Slice.empty = some true) :
+    ∃ doc', S.apply (.replace f t Slice.empty false) (.elem ty0 a0 m0 K) = .ok doc' := by
+  have Rf := resolve_resolved hf
+  have Rt := resolve_resolved ht
+  unfold fitsTriviallyR at htr
+  split at htr
+  · rename_i hc
+    simp only [Bool.and_eq_true, beq_iff_eq] at hc
+    have hsame0 := hc.2
+    have hd : rt.depth = rf.depth := by
+      rcases Nat.le_total rf.depth rt.depth with h | h
+      · exact (same_start_depth Rf Rt hsame0 h).symm
+      · exact same_start_depth Rt Rf hsame0.symm h
+    have hsame : rf.start rf.depth = rt.start rf.depth := by
+      have := hsame0; rw [hd] at this; exact this
+    obtain ⟨hnode, _, _, _⟩ := same_ancestors Rf Rt rf.depth (rf.start rf.depth) (Nat.le_refl _) (by omega)
+      (Nat.le_refl _) (by unfold RPos.end_; omega) (by omega) (by unfold RPos.end_; omega) rf.depth (Nat.le_refl _)
+    have hpar : rt.parent = rf.parent := by
+      unfold RPos.parent; rw [hd]; exact hnode.symm
+    obtain ⟨tyP, aP, mP, ctx, eP, hl⟩ := Resolved.lvl hf hn rf.depth (Nat.le_refl _)
+    have hty : S.tyOf rf.parent = tyP := by
+      show S.tyOf (rf.node rf.depth) = tyP
+      rw [eP]; rfl
+    obtain ⟨hF, hsf, hif⟩ := resolved_flatAt hf hpf
+    obtain ⟨hT, hst', hit⟩ := resolved_flatAt ht hpt
+    rw [hpar, ← hsame0] at hT
+    rw [hpar] at hit
+    rw [← hsame0] at hst'
+    have hvK : S.validContent ty0 K = true ∧ S.checkKids K = true := by
+      simp only [checkNode_elem, Bool.and_eq_true] at hv
+      exact ⟨hv.1.1, hv.2⟩
+    obtain ⟨hvL, _, _⟩ := hl.valid hvK.1 hvK.2 hn
+    unfold Schema.nodeCanReplace at htr
+    split at htr
+    · simp at htr
+    · rw [hty] at htr
+      have hAl : (rf.parent.kids.take (rf.index rf.depth)).length = rf.index rf.depth := by
+        rw [List.length_take]; omega
+      have hBl : (rf.parent.kids.take (rt.index rt.depth)).length = rt.index rt.depth := by
+        rw [List.length_take]; omega
+      have hval := flat_delete_valid' S hst tyP rf.parent.kids _ _ _ _ rf.textOffset rt.textOffset hF.split hT.split hvL
+        (by rw [hAl, hBl]; exact htr)
+      obtain ⟨doc', h⟩ := level_delete_applies S htp ty0 a0 m0 K hv hn hl hF hT (by omega) hval
+      have e1 : rf.start rf.depth + (f - rf.start rf.depth) = f := by omega
+      have e2 : rf.start rf.depth + (t - rf.start rf.depth) = t := by omega
+      rw [e1, e2] at h
+      exact ⟨doc', h⟩
+  · simp at htr
+
+/-! ### `replace_step` on a deletion: a replace-step answer applies -/
+
+/-- **every `ReplaceStep` that `replace_step` emits for a deletion applies** -/
+theorem replaceStep_delete_replace_applies (S : Schema) (hdet : DetS S) (hleaf : LeafOk S) (hfl : FillersOK S)
+    (hcl : Closable S) (hts : TextStableP S) (hta : TextAbsorb S) (hjc : joinCompatB S = true)
+    (hro : reopenOKB S = true) (ty0 : TypeId) (a0 : Attrs) (m0 : Marks) (K : List Node) (f t : Nat)
+    (hv : S.checkNode (.elem ty0 a0 m0 K) = true) (hn : fnorm K = true)
+    (hattrs : S.nodeAttrsOK (.elem ty0 a0 m0 K) = true) (hhc : highClosedKids K = true) (hft : f ≤ t)
+    (rf rt : RPos) (hf : (Node.elem ty0 a0 m0 K).resolve f = some rf)
+    (ht : (Node.elem ty0 a0 m0 K).resolve t = some rt) (hpf : rf.pairOk = true) (hpt : rt.pairOk = true)
+    (F T : Nat) (sl : Slice) (b : Bool)
+    (h : replaceStep S (.elem ty0 a0 m0 K) f t Slice.empty = .ok (some (.replace F T sl b))) :
+    ∃ doc', S.apply (.replace F T sl b) (.elem ty0 a0 m0 K) = .ok doc' := by
+  unfold replaceStep at h
+  split at h
+  · simp [pure, Except.pure] at h
+  · simp only [hf, ht] at h
+    split at h
+    · simp [throw, throwThe, MonadExceptOf.throw] at h
+    · rename_i htr
+      have := pure_ok h
+      simp only [Option.some.injEq, Step.replace.injEq] at this
+      obtain ⟨rfl, rfl, rfl, rfl⟩ := this
+      exact trivial_delete_applies' S hta hts ty0 a0 m0 K f t rf rt hf ht hv hn hft hpf hpt htr
+    · -- the Fitter
+      unfold fitterFit at h
+      obtain ⟨st0, h0, h⟩ := FM.bind_ok h
+      obtain ⟨hu, _, _, _⟩ := fitInit_spec S hf Slice.empty st0 h0
+      rw [FM.bind_eq (fitLoop_empty S _ st0 hu)] at h
+      obtain ⟨mi, hmi, h⟩ := FM.bind_ok h
+      simp only at h
+      obtain ⟨target, htarget, h⟩ := FM.bind_ok h
+      obtain ⟨c, hc, h⟩ := FM.bind_ok h
+      cases c with
+      | none => simp [pure, Except.pure] at h
+      | some c =>
+        simp only at h
+        cases mi with
+        | some p =>
+          -- a replace-around answer: not a replace step
+          unfold fitEmit at h
+          simp only at h
+          split at h
+          · simp [throw, throwThe, MonadExceptOf.throw] at h
+          · have := pure_ok h
+            simp at this
+        | none =>
+          have htg : target = rt := by
+            simp only [closeTarget] at htarget
+            exact (pure_ok htarget).symm
+          subst htg
+          unfold fitEmit at h
+          simp only at h
+          split at h
+          · have := pure_ok h
+            simp only [Option.some.injEq, Step.replace.injEq] at this
+            obtain ⟨rfl, rfl, rfl, rfl⟩ := this
+            have hpos : rf.pos = f := (resolve_resolved hf).pos_eq
+            rw [hpos]
+            exact close_replace_applies S hdet hleaf hfl hcl hts hjc hro hf ht hv hn hattrs hhc hpf hpt hft st0 h0
+              c.1 c.2 hc
+          · simp [pure, Except.pure] at h
+
 end PM
